@@ -9,6 +9,56 @@ use ctap_types::ctap2::{self, client_pin, credential_management, get_info};
 use ctap_types::serde::{cbor_deserialize, cbor_serialize};
 
 /// single-character edits, case variants, prefixes, one-character extensions of a spelling
+/// split an identifier into tokens at '_' / '-' (separator kept with the following token) and at
+/// lower->upper case boundaries: "FIDO_2_1_PRE" -> ["FIDO", "_2", "_1", "_PRE"], "credProtect" ->
+/// ["cred", "Protect"]
+fn tokens(s: &str) -> Vec<String> {
+    let mut out: Vec<String> = Vec::new();
+    let mut cur = String::new();
+    let mut prev_lower = false;
+    for c in s.chars() {
+        let boundary = c == '_' || c == '-' || (c.is_ascii_uppercase() && prev_lower);
+        if boundary && !cur.is_empty() {
+            out.push(std::mem::take(&mut cur));
+        }
+        cur.push(c);
+        prev_lower = c.is_ascii_lowercase();
+    }
+    if !cur.is_empty() {
+        out.push(cur);
+    }
+    out
+}
+
+/// identifiers composed from the pieces of the valid ones: suffixes, a piece of one name attached to
+/// another, repeated pieces, prefix of one + suffix of another
+fn compositions(s: &str, names: &[&str]) -> Vec<String> {
+    let mut out = Vec::new();
+    let ts = tokens(s);
+    for k in 1..ts.len() {
+        out.push(ts[k..].concat()); // drop leading pieces
+        out.push(ts[k..].concat().trim_start_matches(|c| c == '_' || c == '-').to_string());
+    }
+    out.push(format!("{}{}", ts[0], s)); // repeated first piece
+    if ts.len() > 1 {
+        out.push(format!("{}{}", s, ts[ts.len() - 1])); // repeated last piece
+    }
+    for other in names {
+        let to = tokens(other);
+        for t in &to {
+            out.push(format!("{}{}", s, t));
+            out.push(format!("{}{}", t, s));
+            out.push(format!("{}_{}", s, t.trim_start_matches(|c| c == '_' || c == '-')));
+        }
+        for i in 1..ts.len() {
+            for j in 1..to.len() {
+                out.push(format!("{}{}", ts[..i].concat(), to[j..].concat()));
+            }
+        }
+    }
+    out
+}
+
 fn neighbours(s: &str, rng: &mut Rng, all: bool) -> Vec<String> {
     let mut out = Vec::new();
     let chars: Vec<char> = s.chars().collect();
@@ -126,7 +176,10 @@ macro_rules! text_table {
         // everything else is rejected
         for (_, s) in table.iter() {
             let all = $rep.thorough();
-            for cand in neighbours(s, $rng, all) {
+            let names: Vec<&str> = table.iter().map(|(_, t)| *t).collect();
+            let mut cands = neighbours(s, $rng, all);
+            cands.extend(compositions(s, &names));
+            for cand in cands {
                 if table.iter().any(|(_, t)| *t == cand) {
                     continue;
                 }
